@@ -229,7 +229,7 @@ func (w *World) tamperAndDeliver(m *Msg) {
 		// inside the two integers, not the DER framing, so that the signature still parses
 		at := 5 + r.Choice("tamper.sigbyte", len(s)-6)
 		if at == 4+int(s[3]) || at == 5+int(s[3]) {
-			at++
+			at = 6 + int(s[3])
 		}
 		if at >= len(s) {
 			at = len(s) - 1
